@@ -7,28 +7,32 @@ namespace Casket.Gzip
 open Casket.GzipSpec
 open Casket.Limits (Bytes)
 
-/-- the decision the middleware takes at header time for inner response `i` under block `b` -/
-def decision (b : Block) (i : Inner) : Bool := responsePasses b i.hdr
+/-- the decision the middleware takes at the response header with status `code` for inner
+response `i` under block `b` -/
+def decision (b : Block) (i : Inner) (code : Nat) : Bool := code != 204 && responsePasses b i.hdr
 
-def hdrAfter (b : Block) (i : Inner) : Hdr := if decision b i then rewrite i.hdr else i.hdr
+def hdrAfter (b : Block) (i : Inner) (code : Nat) : Hdr := if decision b i code then rewrite i.hdr else i.hdr
 
 /-- simulation between the wrapper's state and the plain ResponseWriter's state after the same calls -/
 inductive Sim (b : Block) (i : Inner) : W → Under → Prop
   | fresh : Sim b i { live := i.hdr, decided := none, under := { committed := none, wrote := false } }
       { committed := none, wrote := false }
-  | going (code : Nat) (wr : Bool) :
-      Sim b i { live := hdrAfter b i, decided := some (decision b i),
-                under := { committed := some (code, hdrAfter b i), wrote := wr } }
+  | going (code : Nat) (wr : Bool) (hc : isInfo code = false) :
+      Sim b i { live := hdrAfter b i code, decided := some (decision b i code),
+                under := { committed := some (code, hdrAfter b i code), wrote := wr } }
         { committed := some (code, i.hdr), wrote := wr }
 
-theorem wWriteHeader_fresh (b : Block) (i : Inner) (code : Nat) :
+theorem wWriteHeader_fresh (b : Block) (i : Inner) (code : Nat) (hc : isInfo code = false) :
     wWriteHeader b { live := i.hdr, decided := none, under := { committed := none, wrote := false } } code =
-      { live := hdrAfter b i, decided := some (decision b i),
-        under := { committed := some (code, hdrAfter b i), wrote := false } } := by
+      { live := hdrAfter b i code, decided := some (decision b i code),
+        under := { committed := some (code, hdrAfter b i code), wrote := false } } := by
   unfold wWriteHeader hdrAfter decision
-  by_cases h : responsePasses b i.hdr = true
-  · simp [h, commit]
-  · simp [h, commit]
+  by_cases h : (code != 204 && responsePasses b i.hdr) = true
+  · simp [h, hc, commit]
+  · simp [h, hc, commit]
+
+@[simp] theorem isInfo_200 : isInfo 200 = false := by decide
+@[simp] theorem isInfo_206 : isInfo 206 = false := by decide
 
 theorem sim_step (b : Block) (i : Inner) (w : W) (u : Under) (op : Op) (h : Sim b i w u) :
     Sim b i (wStep b w op) (plainStep u i.hdr op) := by
@@ -36,25 +40,29 @@ theorem sim_step (b : Block) (i : Inner) (w : W) (u : Under) (op : Op) (h : Sim 
   | fresh =>
     cases op with
     | hdr code =>
-      simp only [wStep, plainStep, wWriteHeader_fresh, commit]
-      exact Sim.going code false
+      by_cases hc : isInfo code = true
+      · simp only [wStep, plainStep, wWriteHeader, commit, hc, if_true, Option.isSome_none, Bool.false_eq_true, if_false]
+        exact Sim.fresh
+      · have hc' : isInfo code = false := by simpa using hc
+        simp only [wStep, plainStep, wWriteHeader_fresh b i code hc', commit, hc']
+        exact Sim.going code false hc'
     | write =>
-      simp only [wStep, plainStep, wEnsureHeader, wWriteHeader_fresh, commit]
-      exact Sim.going 200 true
+      simp only [wStep, plainStep, wEnsureHeader, wWriteHeader_fresh b i 200 isInfo_200, commit, isInfo_200]
+      exact Sim.going 200 true isInfo_200
     | flush =>
-      simp only [wStep, plainStep, wEnsureHeader, wWriteHeader_fresh, commit]
-      exact Sim.going 200 false
-  | going code wr =>
+      simp only [wStep, plainStep, wEnsureHeader, wWriteHeader_fresh b i 200 isInfo_200, commit, isInfo_200]
+      exact Sim.going 200 false isInfo_200
+  | going code wr hc =>
     cases op with
     | hdr code' =>
       simp only [wStep, plainStep, wWriteHeader, Option.isSome_some, if_true, commit]
-      exact Sim.going code wr
+      split <;> exact Sim.going code wr hc
     | write =>
-      simp only [wStep, plainStep, wEnsureHeader, commit]
-      exact Sim.going code true
+      simp only [wStep, plainStep, wEnsureHeader, commit, isInfo_200]
+      exact Sim.going code true hc
     | flush =>
-      simp only [wStep, plainStep, wEnsureHeader, commit]
-      exact Sim.going code wr
+      simp only [wStep, plainStep, wEnsureHeader, commit, isInfo_200]
+      exact Sim.going code wr hc
 
 theorem sim_fold (b : Block) (i : Inner) (ops : List Op) (w : W) (u : Under) (h : Sim b i w u) :
     Sim b i (ops.foldl (wStep b) w) (ops.foldl (fun u op => plainStep u i.hdr op) u) := by
@@ -79,7 +87,7 @@ client offered gzip, the response passed the filters, and exactly one gzip layer
 the rewritten header. -/
 theorem gzipRun_cases (blocks : List Block) (path ae : Bytes) (i : Inner) :
     gzipRun blocks path ae i = plainRun i ∨
-    (acceptsGzip ae = true ∧ ∃ b code wr, decision b i = true ∧
+    (acceptsGzip ae = true ∧ ∃ b code wr, decision b i code = true ∧
       plainRun i = { status := code, hdr := i.hdr, body := wireBody i wr, blen := some (wireLen i wr) } ∧
       gzipRun blocks path ae i =
         { status := code, hdr := rewrite i.hdr, body := .layer .gzip (wireBody i wr), blen := none }) := by
@@ -100,15 +108,15 @@ theorem gzipRun_cases (blocks : List Block) (path ae : Bytes) (i : Inner) :
         unfold plainRun
         simp only [hu]
         simp [finish]
-      | going code wr =>
+      | going code wr hc =>
         have hp := plainRun_going i code wr hu
-        by_cases hd : decision b i = true
+        by_cases hd : decision b i code = true
         · right
           refine ⟨trivial, b, code, wr, hd, hp, ?_⟩
           simp only [hd, hdrAfter, if_true, finish, wireBody]
         · left
           rw [hp]
-          have hd' : decision b i = false := by simpa using hd
+          have hd' : decision b i code = false := by simpa using hd
           simp only [hd', hdrAfter, finish, wireBody, wireLen]
           simp
   · left
